@@ -24,7 +24,8 @@ PROP = 'C20'
 LEVEL = 'exploration'
 RULE = ('histories are seeded random op sequences over a 3-key alphabet with uniquely tagged values; a case is '
         'non-trivial if it has >=1 overwrite or delete-then-read of a key, or >=2 listeners with a disconnect, '
-        'or >=2 distinct schedules; distinct = distinct (part, storage, op sequence[, schedule]) signature')
+        'or >=2 distinct schedules; distinct = distinct (part, storage, op sequence[, schedule]) signature'
+        ' Also: hand-written motifs around loads in flight (two preloads of one key, delete / overwrite while loading) with random noise operations and many random schedules.')
 ASSUMPTIONS = [
     'sync points of tenpy.tools.thread are exactly its queue/threading calls (shimmed); the worker runs atomically between them',
     'deleting a missing key and listeners mutating the handler during emit are unspecified',
